@@ -272,8 +272,14 @@ def _target_expression(
     path relative to the nearest common ancestor, then an absolute ``#id``
     reference as an unambiguous last resort.
     """
+    # 🫥 The engine tries the source's own children before its siblings, so a
+    #    key that one of them also carries means the child, never the sibling
+    #    (or the source itself): `b` written on a state `b` that has a child
+    #    `b` re-targeted an invoke handler from the state to its child.
+    shadowed = {child.key for child in source.children}
+
     # 1️⃣ Sibling of the source — the overwhelmingly common case.
-    if target.path[:-1] == source.path[:-1]:
+    if target.path[:-1] == source.path[:-1] and target.key not in shadowed:
         return target.key
 
     # 2️⃣ Descendant of one of the source's ancestors: emit the path
@@ -289,6 +295,8 @@ def _target_expression(
         ancestor_path = source.path[:depth]
         if target.path[:depth] == ancestor_path and len(target.path) > depth:
             candidate = ".".join(target.path[depth:])
+            if depth < len(source.path) and target.path[depth] in shadowed:
+                continue
             # ✅ Only safe if it resolves back to the same state.
             if resolve_target(candidate, source, machine) is target:
                 return candidate
